@@ -26,7 +26,7 @@ def gen_geometry(rng, tier, small=False):
     fch1 = float(common.pick(rng, common.UGLY_FCH1)) if rng.random() < 0.7 else float(10 ** rng.uniform(8, 10.6))
     if fch1 - fchans * df < 1e6:
         fch1 = fchans * df + 1e8
-    return dict(fchans=fchans, tchans=tchans, df=df, dt=dt, fch1=fch1, asc=bool(rng.integers(2)))
+    return dict(fchans=fchans, tchans=tchans, df=df, dt=dt, fch1=fch1, asc=bool(rng.integers(2)), neg_df=bool(rng.random() < 0.15))
 
 
 def axes_of(g):
